@@ -41,6 +41,9 @@ type Prop struct {
 	Describe func(op string) string
 	// QuickN / ThoroughN: generated cases per tier.
 	QuickN, ThoroughN int
+	// Fixed produces op lines that run on every check before the generated ones (regression
+	// inputs of repaired defects, exhaustive finite families).
+	Fixed func() []string
 	// Extra runs implementation-only checks that do not go through the model (optional).
 	Extra func(r *Rng, tier string, res *Result)
 }
@@ -267,6 +270,11 @@ func runProp(p *Prop, tier string, seed int64, driver, verifDir string, mult int
 		return nil, err
 	}
 
+	if p.Fixed != nil {
+		if err := evaluate(p, driver, p.Fixed(), known, res, replayDir, seen); err != nil {
+			return nil, err
+		}
+	}
 	n := p.QuickN
 	if tier == "thorough" {
 		n = p.ThoroughN
